@@ -33,6 +33,7 @@ class Arr:
         self.length = None
         self.base = None      # fallback applied-undef name
         self.opaque = False
+        self.entry_from = None   # inside a loop body: defs[:entry_from] are pre-loop; reads of them yield placeholders
 
     def copy(self):
         a = Arr(self.name)
@@ -40,7 +41,13 @@ class Arr:
         a.length = self.length
         a.base = self.base
         a.opaque = self.opaque
+        a.entry_from = self.entry_from
+        if hasattr(self, 'dims'):
+            a.dims = self.dims
         return a
+
+    def entry_func(self):
+        return Function('@entry:' + str(self.name), real=True)
 
     def fallback(self, idx):
         return Function(self.base or self.name, real=True)(*idx)
@@ -50,7 +57,11 @@ class Arr:
         if self.opaque:
             return self.fallback(idx)
         pieces = []
-        for kv, guard, term in reversed(self.defs):
+        ndef = len(self.defs)
+        for pos, (kv, guard, term) in zip(range(ndef - 1, -1, -1), reversed(self.defs)):
+            if self.entry_from is not None and pos < self.entry_from:
+                pieces.append((self.entry_func()(*idx), True))
+                break
             if len(kv) > len(idx):
                 continue
             sub = dict(zip(kv, idx))
@@ -67,7 +78,10 @@ class Arr:
                 continue
             pieces.append((t, g))
         else:
-            pieces.append((self.fallback(idx), True))
+            if self.entry_from is not None:
+                pieces.append((self.entry_func()(*idx), True))
+            else:
+                pieces.append((self.fallback(idx), True))
         if len(pieces) == 1:
             return pieces[0][0]
         return Piecewise(*pieces)
@@ -582,6 +596,10 @@ class Symx:
                 return v.copy() if isinstance(v, Arr) else v
         if k == 'Construct' and e0['q'].startswith('std::vector'):
             return self.vector_ctor(e0, st)
+        if k == 'Construct' and e0['q'] in ('libphysica::Vector', 'libphysica::Matrix'):
+            v = self.lp_ctor(e0, st)
+            if v is not None:
+                return v
         if k == 'Construct' and e0['q'] == 'std::function' and len(e0['args']) == 1:
             return self.rvalue(e0['args'][0], st)
         if k == 'InitList' and self.is_array_ty(e0.get('ty', '')):
@@ -613,12 +631,46 @@ class Symx:
         n = self.sym(real_args[0], st)
         a.length = n
         fill = Integer(0)
-        if len(real_args) >= 2:
-            fv = self.sym_or_name(real_args[1], st)
-            fill = fv
         kv = sp.Dummy('k', integer=True)
+        if len(real_args) >= 2:
+            fv = self.rvalue(real_args[1], st)
+            if isinstance(fv, Arr):
+                for kvs, g, t in fv.defs:
+                    a.defs.append(((kv,) + tuple(kvs), g, t))
+                a.dims = (n, fv.length)
+                return a
+            if isinstance(fv, LambdaVal):
+                fv = Symbol('lambda')
+            fill = fv
         a.defs.append(((kv,), S.true, fill))
         return a
+
+    def lp_ctor(self, e, st):
+        """libphysica::Vector / Matrix constructors whose result is an array value we can describe."""
+        args = [x for x in e['args'] if x.get('k') != 'DefaultArg']
+        if len(args) == 1:
+            v = self.rvalue(args[0], st)
+            if isinstance(v, Arr) and strip(args[0]).get('ty', '').startswith('std::vector<std::vector<double') \
+                    and e['q'] == 'libphysica::Matrix':
+                return v
+            if isinstance(v, Arr) and strip(args[0]).get('ty', '').startswith('std::vector<double') and e['q'] == 'libphysica::Vector':
+                return v
+            return None
+        tys = [strip(x).get('ty') for x in args]
+        if e['q'] == 'libphysica::Matrix' and len(args) in (2, 3) and all(is_int_ty(t) or t in FLOAT_TYPES for t in tys):
+            a = Arr('mat')
+            a.dims = (self.sym(args[0], st), self.sym(args[1], st))
+            fill = self.sym(args[2], st) if len(args) == 3 else Integer(0)
+            kv = (sp.Dummy('k0', integer=True), sp.Dummy('k1', integer=True))
+            a.defs.append((kv, S.true, fill))
+            return a
+        if e['q'] == 'libphysica::Vector' and len(args) in (1, 2) and is_int_ty(tys[0]):
+            a = Arr('vecobj')
+            a.length = self.sym(args[0], st)
+            fill = self.sym(args[1], st) if len(args) == 2 else Integer(0)
+            a.defs.append(((sp.Dummy('k0', integer=True),), S.true, fill))
+            return a
+        return None
 
     def assign(self, lhs, v, st):
         lhs = strip(lhs)
@@ -1034,6 +1086,8 @@ class Symx:
                     a.opaque = True
                 body_st.env[key] = a
             ndefs[key] = len(a.defs)
+            a.saved_entry = a.entry_from
+            a.entry_from = len(a.defs)
         try:
             live, done = self.exec(s['body'], [body_st])
         except Undecided:
@@ -1053,30 +1107,38 @@ class Symx:
             newarr = base.copy()
             len0 = base.length
             grew = False
+            body_arr0 = body_st.env.get(key)
             for p in live:
                 a = p.env.get(key)
+                ef = a.entry_func()
                 pc = sp.And(*p.conds[ncond:]) if len(p.conds) > ncond else S.true
                 for kvs, guard, term in a.defs[ndefs[key]:]:
-                    # guard is Eq(k, idx(i)) possibly with push_back length
                     g, t = guard, term
                     if len0 is not None and a.length is not None and a.length != len0:
-                        # push_back inside loop: length on entry of iteration i is len0 + (i-lo)*growth
                         growth = a.length - len0
                         g = g.subs(len0, len0 + (i - lo) * growth) if len0.free_symbols else \
                             self.shift_pushback(g, kvs, len0, i, lo, growth)
                         grew = growth
                     sol = self.solve_index(kvs, g, i)
                     if sol is None:
-                        newarr = Arr(base.name + '@loop%d' % s['l'])
-                        break
+                        # index independent of the loop variable: accumulation into a fixed element?
+                        acc = self.accumulate_element(kvs, g, t, ef, base, i, lo, hi, pc)
+                        if acc is None:
+                            newarr = Arr(base.name + '@loop%d' % s['l'])
+                            newarr.length = base.length
+                            break
+                        newarr.defs.append(acc)
+                        continue
                     kv_guard, isub = sol
                     t2 = t.subs(isub)
                     pc2 = pc.subs(isub) if pc is not S.true else S.true
-                    # in-bounds assumption: the range of the comprehension is not part of the guard
-                    # (memory safety of subscripts is the business of the guard rules, not of symx)
+                    # placeholders for entry values: the element as it was before the loop
+                    if t2.has(ef):
+                        t2 = t2.replace(ef, lambda *ix: base.read(tuple(ix)))
                     newarr.defs.append((kvs, sp.And(kv_guard, pc2), t2))
             if grew is not False and len0 is not None:
                 newarr.length = len0 + (hi - lo) * grew
+            newarr.entry_from = base.entry_from
             st.env[key] = newarr
         # merge: scalars
         for key, sym_in in entry.items():
@@ -1109,6 +1171,34 @@ class Symx:
                 continue
             st.env[key] = self.fresh_symbol('%s@loop%d' % (self.lv_name(node), s['l']), node.get('ty'))
         return [st], []
+
+    def accumulate_element(self, kvs, g, t, ef, base, i, lo, hi, pc):
+        """A[fixed idx] = A[fixed idx] (+|*) delta(i) inside a counted loop -> Sum/Product."""
+        if pc is not S.true or g.has(i):
+            return None
+        ents = [a for a in t.atoms(sp.core.function.AppliedUndef) if a.func == ef]
+        if len(ents) != 1:
+            return None
+        E = ents[0]
+        # the placeholder must be the element being written
+        sub = {}
+        eqs = [g] if isinstance(g, sp.Equality) else (list(g.args) if isinstance(g, sp.And) else [])
+        for eq in eqs:
+            if isinstance(eq, sp.Equality) and eq.lhs in kvs:
+                sub[eq.lhs] = eq.rhs
+            elif isinstance(eq, sp.Equality) and eq.rhs in kvs:
+                sub[eq.rhs] = eq.lhs
+        idx = tuple(sub.get(kv) for kv in kvs)
+        if None in idx or tuple(E.args) != idx:
+            return None
+        delta = sp.expand(t - E)
+        pre = base.read(idx)
+        if not delta.has(E):
+            return (kvs, g, pre + sp.Sum(delta, (i, lo, hi - 1)))
+        ratio = sp.cancel(t / E)
+        if not ratio.has(E):
+            return (kvs, g, pre * sp.Product(ratio, (i, lo, hi - 1)))
+        return None
 
     def shift_pushback(self, g, kvs, len0, i, lo, growth):
         # guard is Eq(k, len0 + j) for the j-th push_back in the body (len0 numeric)
